@@ -618,7 +618,15 @@ def r16_4(ctx, N) -> None:
                         ctx.check(all(isinstance(o, (ast.Eq, ast.NotEq)) for o in c.ops), "R16.4", m, c,
                                   "user keys are compared by equality only (like itertools.groupby)", node=n)
                     elif any(isinstance(o, (ast.Is, ast.IsNot)) for o in c.ops):
-                        ok = any(norm(o) in ("self", "None") or _marker_in(N, norm(o))
+                        def lib_object(o) -> bool:
+                            # a parameter that is declared to be an object of a private library class (a group handed to
+                            # a method of the shared state)
+                            if not isinstance(o, ast.Name):
+                                return False
+                            ann = next((p_.annotation for p_ in m.params() if p_.arg == o.id), None)
+                            text = norm(ann).strip("'\"") if ann is not None else ""
+                            return any(text.startswith(cn) and cn.startswith("_") for cn in m.module.classes)
+                        ok = any(norm(o) in ("self", "None") or _marker_in(N, norm(o)) or lib_object(o)
                                  or {a[0] for a in ctx.vals.expr(m, o, n)} == {"sentinel"} for o in operands)
                         ctx.check(ok, "R16.4", m, c, "identity tests involve only library objects (self, None, sentinel, groups)",
                                   node=n)
@@ -633,7 +641,8 @@ def r16_5(ctx, N) -> None:
     if acl is None:
         ctx.ok("R16.5", "itertools._Grouper", "no aclose: groups cannot be closed individually")
         return
-    u = _view(ctx, N, f"itertools.{info.name}.aclose") if False else ctx.inlined(acl)
+    from asl.inline import private_class_policy
+    u = ctx.inlined(acl, policy=private_class_policy)  # (the test-and-clear may be a method of the shared state)
     cfg = cfg_of(u)
     me = u.param_names()[0]
     main = [n for n in cfg.nodes if not n.tag]
